@@ -14,6 +14,7 @@ import (
 	"os"
 	"reflect"
 	"sort"
+	"strings"
 	"sync"
 	"sync/atomic"
 	"time"
@@ -189,6 +190,8 @@ type realManager struct {
 	// monitors' ghosts
 	discovered map[string]bool
 	confirmed  map[string]bool
+	// marked reads of pool state made without the pool's mutex
+	unlockedReads []string
 }
 
 const poolTimeout = time.Hour
@@ -229,14 +232,33 @@ func newRealManager(peerNames, hashes []string, blacklisting bool) (*realManager
 		dones: map[MReq]peers.DoneFunc{}, counters: map[string]int{}, discovered: map[string]bool{}, confirmed: map[string]bool{}}
 	rm.ccond = sync.NewCond(&rm.cmu)
 	rm.nodesObj = m.VerifNodes().Raw()
+	// Besides counting the node pool's events (needed to wait for the asynchronous disconnect handling) the hook
+	// keeps, per goroutine, the set of pool mutexes it holds, and records every marked read of pool state
+	// ("<method>.read") made WITHOUT that pool's mutex (lock discipline, Eraser style).
+	held := map[uint64]map[any]int{}
 	hook := func(obj any, ev string, id peer.ID) {
-		if obj != rm.nodesObj {
-			return
-		}
+		goid := curGoid()
 		rm.cmu.Lock()
-		rm.counters[ev]++
-		rm.ccond.Broadcast()
-		rm.cmu.Unlock()
+		defer rm.cmu.Unlock()
+		h := held[goid]
+		if h == nil {
+			h = map[any]int{}
+			held[goid] = h
+		}
+		switch {
+		case strings.HasSuffix(ev, ".locked"), strings.HasSuffix(ev, ".rlocked"):
+			h[obj]++
+		case strings.HasSuffix(ev, ".unlock"), strings.HasSuffix(ev, ".runlock"):
+			h[obj]--
+		case strings.HasSuffix(ev, ".read"):
+			if h[obj] <= 0 {
+				rm.unlockedReads = append(rm.unlockedReads, ev)
+			}
+		}
+		if obj == rm.nodesObj {
+			rm.counters[ev]++
+			rm.ccond.Broadcast()
+		}
 	}
 	rawHook.Store(&hook)
 	if err := m.Start(ctx); err != nil {
@@ -545,7 +567,11 @@ func (rm *realManager) exec(rep *vh.Report, a MMAct, pre MMState, replayObj any)
 }
 
 func (rm *realManager) call(rep *vh.Report, what string, replayObj any, f func()) {
-	ok, dump := vh.WithWatchdog(watchdog, f)
+	ok, pv, dump := guarded(watchdog, f)
+	if pv != "" {
+		rep.Violate("C17/manager/panic", fmt.Sprintf("Manager.%s panicked: %s", what, pv), replayObj)
+		panic("manager call panicked: " + what)
+	}
 	if !ok {
 		rep.Violate("C17/manager/call-did-not-return", fmt.Sprintf("Manager.%s did not return within %s in a sequential replay\n%s", what, watchdog, trimDump(dump)), replayObj)
 		panic("manager call hung: " + what)
@@ -579,8 +605,17 @@ func normRet(raw json.RawMessage) string {
 	return string(b)
 }
 
-// monitorNodes: a peer in the node pool was reported by discovery or announced a confirmed hash.
+// monitorNodes: a peer in the node pool was reported by discovery or announced a confirmed hash; and no pool state
+// was read outside the pool's mutex during the last call.
 func (rm *realManager) monitorNodes(rep *vh.Report, st MMState, replayObj any) {
+	rm.cmu.Lock()
+	ur := rm.unlockedReads
+	rm.unlockedReads = nil
+	rm.cmu.Unlock()
+	if len(ur) > 0 {
+		rep.Violate("C17/manager/pool-state-read-without-pool-lock",
+			fmt.Sprintf("the manager read a pool's peer list without holding that pool's mutex (%v) while other goroutines may add to it", ur), replayObj)
+	}
 	for p, s := range st.Nodes {
 		if s != "none" && !rm.discovered[p] && !rm.confirmed[p] {
 			rep.Violate("C17/manager/unconfirmed-peer-in-node-pool",
